@@ -354,7 +354,7 @@ Definition py_find3 (v c lo hi : pyval) : res pyval :=
 (* s.split(sep) for a one-character separator *)
 Definition py_split (v sep : pyval) : res pyval :=
   match v, one_char sep with
-  | PStr s, Some ch => Ok (PList (map PStr (split_on (Ascii.eqb ch) s)))
+  | PStr s, Some ch => Ok (PList (map PStr (split_on (fun c => Ascii.eqb c ch) s)))
   | PStr _, None => Err EUnmodelled
   | POther _, _ => Err EUnmodelled
   | _, _ => Err EAttr
